@@ -195,10 +195,12 @@ func cowCase(c *Ctx, id, stack string, items []string, prop string) {
 		// listings of directories present in both layers: union of names, once each, pages partition
 		bm, lm := dumpMap(base), dumpMap(layer)
 		for _, d := range paths {
-			if !(bm[d].dir && lm[d].dir) {
+			// ... and of directories of the overlay that hide a regular file of the base
+			_, inBase := bm[d]
+			if !(bm[d].dir && lm[d].dir) && !(lm[d].dir && inBase && !bm[d].dir) {
 				continue
 			}
-			if _, ok := bm[d]; !ok {
+			if !inBase {
 				continue
 			}
 			want := children(spec, d)
@@ -444,6 +446,18 @@ func runCowProp(c *Ctx, prop string) {
 				cowCase(c, fmt.Sprintf("big%d", k), "cow(mem,mem)", items, prop)
 				k++
 			}
+		}
+		// one name of different kind in the two layers (the layers were filled separately): the
+		// overlay's entry is what shows, as a directory with its own listing or as a file with its bytes
+		for ki, items := range [][]string{
+			{"0 0 Create 2f78", "0 - HWrite 0 62617365", "0 - HClose 0", "1 - MkdirAll 2f78 493", "1 1 Create 2f782f63", "1 - HWrite 1 6f766c", "1 - HClose 1",
+				"0 - Chtimes 2f78 1000000000", "0 - Chtimes 2f 1000000000", "1 - Chtimes 2f782f63 1000000000", "1 - Chtimes 2f78 1000000000", "1 - Chtimes 2f 1000000000",
+				". - Stat 2f78", ". 2 Open 2f78", ". - HReaddirnames 2 -1", ". - HClose 2", ". 3 Open 2f782f63", ". - HRead 3 10", ". - HClose 3", ". 4 Open 2f", ". - HReaddirnames 4 -1", ". - HClose 4"},
+			{"0 - MkdirAll 2f78 493", "0 0 Create 2f782f62", "0 - HWrite 0 62617365", "0 - HClose 0", "1 1 Create 2f78", "1 - HWrite 1 6f766c", "1 - HClose 1",
+				"0 - Chtimes 2f782f62 1000000000", "0 - Chtimes 2f78 1000000000", "0 - Chtimes 2f 1000000000", "1 - Chtimes 2f78 1000000000", "1 - Chtimes 2f 1000000000",
+				". - Stat 2f78", ". 2 Open 2f78", ". - HRead 2 10", ". - HClose 2", ". 4 Open 2f", ". - HReaddirnames 4 -1", ". - HClose 4"},
+		} {
+			cowCase(c, fmt.Sprintf("kind%d", ki), "cow(mem,mem)", items, prop)
 		}
 		runOSOverlay(c)
 		c.Extra["big_files"] = "copy-up of files of 32767..98304 bytes (zeros, zero tail, no zeros), one byte modified, read back"
